@@ -292,6 +292,45 @@ def controls(ctx):
     c = Collect(); r2(p, c, anchors=False)
     expect_control(ctx, 'C17.R2', c, ['meddler:rule_useful-store', 'new_rule:clear', 'flex_main:warn-unmatched', 'flex_main:warn-default'], must_hold=1)
 
+# ================================================================ R4
+
+def r4(ctx):
+    """R4: selecting the option changes nothing but the warning switch.  The command-line case of -w/--nowarn in flexinit()
+    and the %option nowarn / warn action of scan.l are evaluated on the IR (every path, symbolic branches forked): the only
+    option state they may store is env.nowarn, and they may call nothing that selects a back end or a case mode."""
+    import c19, lex
+    rep = ctx.rep; prog = ctx.flex
+    fi = prog.fn('flexinit'); fs = prog.fn('flexscan')
+    if fi is None or fs is None: rep.broken('C17.R4: flexinit / flexscan not found')
+    sw = max([x for x in fi.ins if x.op == 'switch'], key=lambda x: len(x.cases))
+    tblv = c19.flexopts_table(prog)
+    if not tblv: rep.broken('C17.R4: flexopts[] not readable')
+    flags = sorted({f for s_, f in tblv if s_ in ('-w', '--nowarn')})
+    if not flags: rep.broken('C17.R4: flexopts[] has no -w / --nowarn entry')
+    n = 0
+    def judge(eff, what, wherestr, key):
+        extra = {k: v for k, v in (eff or {}).items() if k != '@env.nowarn'}
+        if eff is None: rep.broken('C17.R4: %s not evaluable' % what)
+        if '@env.nowarn' not in eff:
+            rep.fail('C17.R4', key + ':no-effect', wherestr, '%s does not store env.nowarn' % what)
+        elif extra:
+            rep.fail('C17.R4', key + ':other-option-state', wherestr, '%s also changes %s: suppressing warnings changes the generated scanner' % (what, ', '.join('%s=%s' % kv for kv in sorted(extra.items()))),
+                     replay_input='flex -w x.l  versus  flex x.l: compare the generated files')
+        else:
+            rep.ok('C17.R4', '%s stores only env.nowarn' % what)
+    for fl in flags:
+        n += 1
+        judge(c19.cli_effects(prog, fi, sw, fl), 'the command-line case of -w/--nowarn in flexinit()', 'main.c (flexinit)', 'C17.R4:main.c:flexinit:nowarn')
+    sp = lex.parse_spec(ctx.art.source('scan.l'))
+    for word in ('warn', 'nowarn'):
+        hit = None
+        for r in sp.rules:
+            if r.scs == ['OPTION'] and not r.is_eof and r.pat == 'warn': hit = r
+        if hit is None: rep.broken('C17.R4: scan.l has no <OPTION>warn rule')
+        n += 1
+        judge(c19.option_action_effects(prog, fs, hit, word == 'warn', sp), 'the %%option %s action of scan.l' % word, 'scan.l:%d' % hit.line, 'C17.R4:scan.l:OPTION:%s' % word)
+    return n
+
 def run(ctx):
     rep = ctx.rep; prog = ctx.flex
     rep.require(len(prog.modules) >= 20, 'only %d translation units of flex were compiled to IR' % len(prog.modules))
@@ -300,9 +339,11 @@ def run(ctx):
     controls(ctx)
     n1 = r1(prog, rep)
     n2 = r2(prog, rep)
+    r4(ctx)
     rep.setcount('translation_units', len(prog.modules)); rep.setcount('functions_analysed', len(fns(prog)))
     rep.setcount('readers_of_env_nowarn', n1); rep.setcount('rule_useful_instances', n2)
     rep.floor('C17.R1', 2, 'env.nowarn is read in line_warning() and flexend()')
+    rep.floor('C17.R4', 3, 'command-line case + %option warn / nowarn')
     rep.floor('C17.R2', 8, '2 pointer stores, 3 element stores, new_rule clear, 2 warnings')
     rep.undecided += ['that flex warns exactly for the rules no input can select (correctness of the subset construction and of snstods\' choice)',
                       'REJECT / variable trailing context: only "no false warning" is promised by flex and not even that is decided here',
